@@ -9,9 +9,9 @@ CHECKS = {
              text='SAT-decided: for every pair of disjoint lists over <=5 (thorough: 6) elements and every operation with every admissible operand, the real dll.c '
                   'yields exactly the abstract sequence forwards and backwards; one step from an arbitrary valid state covers histories of any length over that many elements.',
              note='trusted: CBMC front end and bit-blasting, minisat; assumes documented preconditions of the list operations; bound = number of elements', ref='2 C17'),
- 'C18': dict(engine='E1', technique='bounded symbolic model checking (CBMC with SAT and cvc5 bv-as-int back ends) of time_rep.c/time_internal.c against exact integer arithmetic',
+ 'C18': dict(engine='E1', technique='bounded symbolic model checking (CBMC with SAT and cvc5 bv-as-int back ends) of time_rep.c / time_internal.c and, through the LLVM IR route, of the C++ unit time_rep_timespec.cc against exact integer arithmetic',
              text='Solver-decided for all full-width operands (|sec|<=2^61 for add/sub, all int64 for cmp, all 2^32 ms/us): results normalized and equal to integer arithmetic on sec*1e9+nsec.',
-             note='trusted: CBMC, minisat, cvc5 1.0 (--solve-bv-as-int=sum for the ms/us kernels); C build only until the IR route covers the C++ unit', ref='2 C18'),
+             note='trusted: CBMC, minisat, cvc5 1.0 (--solve-bv-as-int=sum for the ms/us kernels); C unit via goto-cc, C++ unit via clang++ -> LLVM IR -> seqcc -> CBMC', ref='2 C18'),
 }
 
 E3NOTE = 'trusted: clang-14/opt-14 IR generation, the seqcc translator (its output is executed natively on every counterexample and must reproduce it), CBMC symbolic execution, kissat; sequentially consistent interleavings within the stated rounds/unrolling; modelled semaphore, clock and allocator'
